@@ -23,7 +23,7 @@ open Refinery.Model.BatchHandler Oracle
 
 /-- `false`: the model follows the code as it is (two missing `return`s in `batch`, `return nil`
 in `processOTLPRequest*`).  After the fix is applied to /repo only this flag flips. -/
-def variant : Bool := false
+def variant : Bool := true
 
 def itemOf : Char → Option Item
   | 'e' => some .emptyData | 'd' => some .noData | 'n' => some .nonTrace | 'p' => some .peer
